@@ -154,5 +154,15 @@ theorem formatTokens_no_panic (t : Time) (toks : List (List Char)) (buf : String
     | panic w => rw [hx] at h; simp [Res.isPanic] at h
     | unmodelled => rfl
 
+theorem whollyKnownL_strings (xs : List String) : Payload.whollyKnownL (xs.map Payload.s) = true := by
+  induction xs with
+  | nil => simp [Payload.whollyKnownL]
+  | cons x xs ih => simp [Payload.whollyKnownL, Payload.whollyKnown, ih]
+
+theorem joinItems_strings (xs : List String) : joinItems (xs.map Payload.s) = some xs := by
+  induction xs with
+  | nil => rfl
+  | cons x xs ih => simp [joinItems, ih]
+
 end Stdlib
 end CtyModel
